@@ -66,7 +66,7 @@ func main() {
 	out := flag.String("out", "", "trace ndjson")
 	stats := flag.String("stats", "", "stats json")
 	subs := flag.Int("subs", 2, "event bus subscribers")
-	variant := flag.String("variant", "plain", "plain|indexed|branchable|concurrent")
+	variant := flag.String("variant", "plain", "plain|indexed|branchable|concurrent|patched")
 	max := flag.Int("max", 0, "max schedules")
 	stride := flag.Int("stride", 1, "take every k-th schedule")
 	budget := flag.Duration("budget", 0, "time budget")
@@ -106,6 +106,7 @@ func main() {
 		os.Exit(2)
 	}
 	r.ConcurrentTxns = *variant == "concurrent"
+	r.PatchFirst = *variant == "patched"
 	r.GqlEvery = *gqlEvery
 	f, err := os.Create(*out)
 	if err != nil {
